@@ -7,6 +7,7 @@
 -/
 import Netpoll.Conn.LifeReachLemmas
 import Netpoll.Conn.LifeDemos
+import Netpoll.Conn.LifeDemoQuiescent
 import Netpoll.Conn.Callbacks
 import Netpoll.Conn.Callbacks
 namespace Netpoll.Props.C05
@@ -106,5 +107,11 @@ example : ∃ s, run (init true false false true) demoRun = some s ∧ s.hupOwed
   decide
 
 example : Reachable (init true false false true) := Reachable.init _ _ _ _
+
+/- the quiescence theorems are not vacuous: the final state of that run is reachable, quiescent, the teardown was owed
+and Detach was never called -/
+example : Reachable demoFinal ∧ Quiescent demoFinal ∧ (demoFinal.userClosed = true ∨ demoFinal.hupOwed = true) ∧ demoFinal.dPc = 0 :=
+  ⟨reach_run demoRun (Reachable.init true false false true) demoFinal_run, demoFinal_quiescent,
+   Or.inr demoFinal_owed.1, demoFinal_owed.2.1⟩
 
 end Netpoll.Props.C05
